@@ -179,7 +179,28 @@ func runWorker(bin string, job *sim.Job, extraEnv ...string) ([]*sim.RunResult, 
 func crashSignature(out string) string {
 	i := strings.Index(out, "fatal error: ")
 	if i < 0 {
-		return ""
+		// an unrecovered panic on a goroutine of the run: a result only when it
+		// was raised inside the library (the first frame that is not the
+		// runtime's); one raised by the harness's own code stays a tool failure
+		if strings.HasPrefix(out, "panic: ") {
+			i = 0
+		} else if i = strings.Index(out, "\npanic: "); i >= 0 {
+			i++
+		} else {
+			return ""
+		}
+		inLib := false
+		for _, l := range strings.Split(out[i:], "\n")[1:] {
+			l = strings.TrimSpace(l)
+			if l == "" || strings.HasPrefix(l, "goroutine ") || strings.HasPrefix(l, "panic(") || strings.HasPrefix(l, "runtime.") || strings.HasPrefix(l, "/") || strings.HasPrefix(l, "[") || strings.HasPrefix(l, "\t") {
+				continue
+			}
+			inLib = strings.HasPrefix(l, "go.sia.tech/core/")
+			break
+		}
+		if !inLib {
+			return ""
+		}
 	}
 	lines := strings.Split(out[i:], "\n")
 	sig := lines[0]
@@ -338,6 +359,9 @@ func cmdCheck(args []string) {
 	for _, b := range batches {
 		for _, e := range b.errs {
 			fmt.Println("WORKER-ERROR:", firstLine(e))
+			if os.Getenv("VERIF_VERBOSE") != "" {
+				fmt.Fprintln(os.Stderr, e)
+			}
 			ev.workerErrors++
 		}
 		for _, r := range b.res {
